@@ -52,6 +52,10 @@ CLAIMED["C15"] = dict(cat="exploration",
    text="Seeded programs of 5-15 public operations on an append-only repository (backup, delete_snapshots, prune with options from the full grid, repair_index, repair_snapshots +/- delete, rewrite +/- forget with and without tree rewriting, config changes, add/delete key, copy into, merge, save_snapshots), each through a fresh handle and partly under seeded gate schedules; the op log of every operation must show no remove and no overwrite of a snapshot, index or pack file, destructive operations must return Err with an empty write/remove log, the others must keep working. Dry-run batch: backup, repair_index, repair_snapshots, rewrite with their dry-run flag and prune_plan on states where the wet twin (run on a fork) does write: zero writes and removes.",
    ref="5 C15", note="An overwrite with byte-identical content (the same pack produced twice) is not a replacement. delete_key is allowed: key files are not in the property's list.",
    tech="deterministic simulation: random programs of public operations with an op-log oracle on the storage seam")
+CLAIMED["C16"] = dict(cat="fault_enumeration",
+   text="Seeded histories (backup, forget, repacking prune, config change, key add; partly under gate schedules) on a hot/cold pair of SimStores under the library's own HotColdBackend, with a single-store twin fed the same history. The combined hot+cold mutation log is replayed op by op and the invariant (every key/snapshot/index/tree-pack file listed by cold is in hot with identical bytes; no data pack in hot) is checked after EVERY op, i.e. at every crash prefix; results are compared with the twin; restore, repacking prune and repair_index run against a cold store that rejects un-warmed pack reads and must succeed with every cold pack read preceded by its warm-up; hot files (a subset or all) are removed and the hot/cold repair must restore the invariant; one storage op on either store fails during a backup: Err, invariant intact.",
+   ref="5 C16", note="Config is exempt from byte identity (is_hot). After the hot/cold repair the tree-pack clause is asserted for packs known to the index. Equivalence read-back uses non-rejecting copies of the stores.",
+   tech="deterministic simulation: per-op invariant over the combined op log of two simulated stores + twin-world equivalence + fault injection")
 NOT_YET = {}
 NA = {
  "C09": "pure function of its arguments (snapshot list, keep options, explicit 'now'): no schedule, clock read, I/O, fault or history for a simulator to own; see DESIGN.md section 6",
